@@ -55,6 +55,12 @@ func (er *ErrorReader) Drain() {
 	}
 	if _, err := io.Copy(io.Discard, er.Reader); err != nil {
 		er.Err = err
+		return
+	}
+	// io.Copy treats io.EOF as a normal end; a limit that was not used up means the
+	// stream ended inside the record being skipped
+	if lr, ok := er.Reader.(*io.LimitedReader); ok && lr.N > 0 {
+		er.Err = io.ErrUnexpectedEOF
 	}
 }
 
